@@ -41,6 +41,9 @@ structure Block where
   pre : Nat := 0
   res : Option Nat := none
   tag : Nat := 0      -- fingerprint of everything else in the block (two arrivals are the same content iff all fields agree)
+  early : Bool := false  -- the block fails `BlockValidator.ValidateBlock` (wrong TxsRootHash): refused before anything is executed
+  verBad : Bool := false -- the fork version in the block's chain id is not the one configured for its number (bd63ef2d)
+  sigBad : Bool := false -- the consensus refuses the block's signature (`ChainConsensus.VerifySign`)
 deriving DecidableEq, Repr, Inhabited
 
 /-- Messages sent to other components (mempool, syncer, p2p). -/
@@ -49,6 +52,7 @@ inductive Msg where
   | put (tx : Nat)        -- MemPoolPut{Tx}
   | sync (no : Nat)       -- SyncStart{TargetNo}
   | notify (block : Nat)  -- NotifyNewBlock
+  | upd (block : Nat)     -- ChainConsensus.Update(block): the consensus status follows the chain service
 deriving DecidableEq, Repr
 
 /-- Point update of a total map. -/
@@ -57,7 +61,8 @@ def upd {β : Type} (f : Nat → β) (k : Nat) (v : β) : Nat → β := fun x =>
 structure Node where
   blocks : Nat → Option Block            -- hash ↦ block
   byNo : Nat → Option Nat                -- height ↦ hash
-  latest : Nat                           -- cached latest height (ChainDB.latest, = latest key)
+  latest : Nat                           -- cached latest height (ChainDB.latest)
+  latestKey : Nat                        -- persisted latest height (the record under dbkey.LatestBlock)
   best : Block                           -- cached best block (ChainDB.bestBlock)
   txIdx : Nat → Option (Nat × Nat)       -- tx hash ↦ (block hash, index)
   rcpt : Nat → Nat → Bool                -- receipts record under (block hash, height)
@@ -74,6 +79,7 @@ def genesis (g : Block) (orphanCap badCap : Nat) : Node where
   blocks := upd (fun _ => none) g.id (some g)
   byNo := upd (fun _ => none) 0 (some g.id)
   latest := 0
+  latestKey := 0
   best := g
   txIdx := fun _ => none
   rcpt := fun _ _ => false
@@ -101,7 +107,8 @@ variable (exec : Nat → Block → Option Nat)
 
 /-- `ChainService.executeBlock` for a block from the network: consensus check, validation + execution on
 the current state root, comparison with the claimed root, commit (root moves), receipts record (only when
-there is at least one receipt, i.e. one transaction), `MemPoolDel`. `none`: an error, nothing changed. -/
+there is at least one receipt, i.e. one transaction), `MemPoolDel`, `ChainConsensus.Update(block)`. `none`: an error,
+nothing changed (but see `failNote`). -/
 def executeBlock (N : Node) (b : Block) : Option Node :=
   if !b.consOk then none else
   match exec N.sdbRoot b with
@@ -110,13 +117,21 @@ def executeBlock (N : Node) (b : Block) : Option Node :=
     if r ≠ b.claimed then none else
     some { N with sdbRoot := r,
                   rcpt := if b.txs.isEmpty then N.rcpt else fun i n => if i = b.id ∧ n = b.no then true else N.rcpt i n,
-                  out := N.out ++ [Msg.del b.id] }
+                  out := N.out ++ [Msg.del b.id, Msg.upd b.id] }
+
+/-- What a failing `executeBlock` leaves behind: when the failure comes out of `blockExecutor.execute` (a transaction,
+the signatures, the claimed state root or receipts root) the consensus is told to go back to the best block
+(`cs.Update(bestBlock)`, chainhandle.go:851); a consensus refusal (`IsBlockValid`) and a `ValidateBlock` failure
+(`newBlockExecutor`) return before that. -/
+def failNote (N : Node) (b : Block) : Node :=
+  if b.consOk && !b.early then { N with out := N.out ++ [Msg.upd N.best.id] } else N
 
 /-- `chainProcessor.connectToChain`: block record, height index, latest key, cached tip, tx index — one DB transaction. -/
 def connect (N : Node) (b : Block) : Node :=
   { N with blocks := upd N.blocks b.id (some b),
            byNo := upd N.byNo b.no (some b.id),
            latest := b.no,
+           latestKey := b.no,
            best := b,
            txIdx := addTxs N.txIdx b }
 
@@ -139,7 +154,7 @@ def runLoop (main : Bool) : Nat → Node → Block → Option Block → Bool × 
   | 0, N, _, last => (true, N, last)
   | fuel + 1, N, blk, last =>
     match apply exec main N blk with
-    | none => (false, N, last)
+    | none => (false, failNote N blk, last)
     | some N1 =>
       let last1 := if main then last else some blk
       match N1.orphans.find? (fun e => e.1 == blk.id) with
@@ -183,7 +198,7 @@ def rollforward : Node → List Block → Bool × Node
   | N, [] => (true, N)
   | N, b :: bs =>
     match executeBlock exec N b with
-    | none => (false, N)
+    | none => (false, failNote N b)
     | some N1 => rollforward N1 bs
 
 def insertSorted (x : Nat) : List Nat → List Nat
@@ -207,7 +222,7 @@ def swapChain (N : Node) (g : Gather) (top : Block) : Bool × Node :=
   if N1.latest ≥ top.no then (false, N1)             -- ErrInvalidSwapChain (logger.Fatal in reorg)
   else
     (true, { N1 with byNo := newAsc.foldl (fun f b => upd f b.no (some b.id)) N1.byNo,
-                     latest := top.no, best := top, marker := none })
+                     latest := top.no, latestKey := top.no, best := top, marker := none })
 
 inductive ReorgRes where
   | done | veto | failed
@@ -220,9 +235,13 @@ def reorg (N : Node) (top : Block) : ReorgRes × Node :=
   | some g =>
     if g.brStart.no < N.lib then (.veto, N)          -- !NeedReorganization(brStart.no)
     else
-      let N1 := { N with sdbRoot := g.brStart.claimed }    -- rollback
+      -- rollback: state root to the fork point, `cs.Update(brStartBlock)`
+      let N1 := { N with sdbRoot := g.brStart.claimed, out := N.out ++ [Msg.upd g.brStart.id] }
       match rollforward exec N1 g.newB.reverse with
-      | (false, N2) => (.failed, { N2 with sdbRoot := N.best.claimed })   -- state root back to the old best block (9256a8e2)
+      | (false, N2) =>
+        -- state root back to the old best block (9256a8e2), `cs.Update(bestBlock)`, and the mempool is told to re-check
+        -- everything against the (unchanged) best block (245caf14)
+        (.failed, { N2 with sdbRoot := N.best.claimed, out := N2.out ++ [Msg.upd N.best.id, Msg.del N.best.id] })
       | (true, N2) =>
         match swapChain N2 g top with
         | (true, N3) => (.done, N3)
@@ -265,6 +284,8 @@ def addBlock (N0 : Node) (b : Block) : Res × Node :=
   let (hit, N) := touchBad { N0 with out := [] } b.id
   if hit = some b then (.cached, N)              -- only a cached block with the very same content short-circuits
   else if (N.blocks b.id).isSome then (.ok, N)                    -- IsConnectedBlock
+  else if b.verBad then (.err, N)                                 -- "invalid chain id version" (bd63ef2d), not cached
+  else if b.sigBad then (.err, cacheBad N b)                      -- VerifySign fails: cached
   else match N.blocks b.parent with
   | none =>                                                       -- isOrphan → handleOrphan
     match addOrphan N b with
@@ -289,7 +310,63 @@ def addBlock (N0 : Node) (b : Block) : Res × Node :=
               | (_, N2) => (.ok, N2)
             else (.ok, N1)
 
+/-- `ChainService.addBlock` for a block the node produced itself (`usedBState ≠ nil`; the consensus has no WAL, as
+DPoS and SBP): refused as stale unless its parent is the best block (not cached), never parked; the p2p layer is told
+first (`notifyBlockByBP`), the block is applied once — no orphan is resolved under it —, committed from the block state
+the producer hands over (for the model: `exec` on the state root the producer built it on, which is the best block's)
+and connected with its block record (`skipAdd = isByBP && HasWAL() = false`). The side-branch arm is transcribed as it
+is written; under the invariant the stale test makes it unreachable. -/
+def addOwn (N0 : Node) (b : Block) : Res × Node :=
+  let (hit, N) := touchBad { N0 with out := [] } b.id
+  if hit = some b then (.cached, N)
+  else if (N.blocks b.id).isSome then (.ok, N)                    -- IsConnectedBlock
+  else if b.parent ≠ N.best.id then (.err, N)                     -- errBlockStale, not cached
+  else if b.verBad then (.err, N)                                 -- "invalid chain id version", not cached
+  else if b.sigBad then (.err, cacheBad N b)                      -- VerifySign fails: cached
+  else match N.blocks b.parent with
+  | none => (.err, N)                                             -- "block received from BP can not be orphan", not cached
+  | some prev =>
+    if prev.no + 1 ≠ b.no then (.err, cacheBad N b)               -- errBlockInvalidNo
+    else
+    match isMainChain N b with
+    | none => (.err, cacheBad N b)
+    | some main =>
+      let N1 := { N with out := N.out ++ [Msg.notify b.id] }      -- notifyBlockByBP
+      if main then
+        match executeBlock exec N1 b with
+        | none => (.err, cacheBad (failNote N1 b) b)
+        | some N2 => (.ok, connect N2 b)
+      else
+        let N2 := storeSide N1 b
+        if N2.latest < b.no then                                  -- needReorg(cp.lastBlock)
+          match reorg exec N2 b with
+          | (.failed, N3) => (.reorgErr, cacheBad N3 b)
+          | (_, N3) => (.ok, N3)
+        else (.ok, N2)
+
 end
+
+/-- What reaches the chain service: a block from the network, a block of the node's own block factory, or the
+consensus moving the last irreversible height. -/
+inductive Arrival where
+  | net (b : Block)
+  | own (b : Block)
+  | lib (n : Nat)
+deriving Repr
+
+def Arrival.block? : Arrival → Option Block
+  | .net b => some b
+  | .own b => some b
+  | .lib _ => none
+
+def arrive (exec : Nat → Block → Option Nat) (N : Node) : Arrival → Node
+  | .net b => (addBlock exec N b).2
+  | .own b => (addOwn exec N b).2
+  | .lib n => { N with lib := n }
+
+/-- The node after a history of arrivals on a fresh node. -/
+def runHistory (exec : Nat → Block → Option Nat) (g : Block) (oc bc : Nat) (h : List Arrival) : Node :=
+  h.foldl (arrive exec) (genesis g oc bc)
 
 /-- Query "transaction by hash" (`ChainService.getTx`). -/
 inductive TxAns where
@@ -306,7 +383,71 @@ def getTx (N : Node) (t : Nat) : TxAns :=
       if i ≥ b.txs.length then .badIdx
       else if N.byNo b.no = some b.id then .confirmed bid i else .notMain bid i
 
+/-- Query "receipts of the block with this hash" (`ChainService.getReceipts`): only for the main-chain block at its
+height, and only when a receipts record exists under (hash, height). -/
+def rcptByHash (N : Node) (id : Nat) : Bool :=
+  match N.blocks id with
+  | none => false
+  | some b => (N.byNo b.no == some b.id) && N.rcpt b.id b.no
+
+/-- Query "receipts of the block at this height" (`ChainService.getReceiptsByNo`). -/
+def rcptByNo (N : Node) (h : Nat) : Bool :=
+  match blockByNo N h with
+  | none => false
+  | some b => N.rcpt b.id b.no
+
 /-- The execution table the driver uses: the block executes on `pre` only, with result `res`. -/
 def tableExec (r : Nat) (b : Block) : Option Nat := if r = b.pre then b.res else none
+
+/-! ### checking the theorems' hypotheses on a concrete run
+
+The property theorems assume, about the blocks of a history: identifiers name contents (`UKeyed`, honesty) and `ExecLaw`
+for the execution function. For the table a run hands to the driver both are decidable; `lawOk` checks the three
+`ExecLaw` conditions for the least ghost function it computes (`Lemmas/ChainLaw.lean: lawOk_sound`). -/
+
+/-- No two blocks of the list carry the same identifier with different content. -/
+def idsKeyed (l : List Block) : Bool := l.all fun a => l.all fun b => a.id != b.id || a == b
+
+def look (m : List (Nat × List Nat)) (r : Nat) : List Nat :=
+  match m.find? (fun e => e.1 == r) with
+  | none => []
+  | some e => e.2
+
+def unionNat (a b : List Nat) : List Nat := b.foldl (fun acc x => if acc.contains x then acc else acc ++ [x]) a
+
+/-- One propagation round of "transactions executed on the way to this root". -/
+def lawRound (tbl : List Block) (m : List (Nat × List Nat)) : List (Nat × List Nat) :=
+  m.map fun e => (e.1, (tbl.filter (fun b => b.res == some e.1)).foldl
+    (fun acc b => unionNat (unionNat acc (look m b.pre)) b.txs) e.2)
+
+def iter {α : Type} (f : α → α) : Nat → α → α
+  | 0, a => a
+  | n + 1, a => iter f n (f a)
+
+def lawRoots (tbl : List Block) : List Nat :=
+  unionNat [] (tbl.flatMap fun b => b.pre :: (match b.res with | some r => [r] | none => []))
+
+/-- The ghost function of a table (as an association list root ↦ transactions). -/
+def lawGhost (tbl : List Block) : List (Nat × List Nat) :=
+  let roots := lawRoots tbl
+  iter (lawRound tbl) (roots.length + 1) (roots.map fun r => (r, []))
+
+def nodupB : List Nat → Bool
+  | [] => true
+  | x :: xs => !xs.contains x && nodupB xs
+
+/-- The three `ExecLaw` conditions for every block of the table that executes, with the ghost function `m`. -/
+def lawOkWith (tbl : List Block) (m : List (Nat × List Nat)) : Bool :=
+  tbl.all fun b =>
+    match b.res with
+    | none => true
+    | some r' =>
+      nodupB b.txs && b.txs.all (fun t => !(look m b.pre).contains t) &&
+      (look m b.pre).all (fun t => (look m r').contains t) && b.txs.all (fun t => (look m r').contains t)
+
+def lawOk (tbl : List Block) : Bool := lawOkWith tbl (lawGhost tbl)
+
+/-- The execution function of a run: the table restricted to the blocks of the run. -/
+def execOn (tbl : List Block) (r : Nat) (b : Block) : Option Nat := if tbl.contains b then tableExec r b else none
 
 end Aergo.Chain
